@@ -22,7 +22,9 @@ PROP = {
         'example exView satisfies it (exViewOk)',
         'Synced: every proxy hosting a node of the view is reachable under its address and has Installed a meta that '
         'is WireFaithful to encodeFor of its own current view; WireFaithful is discharged from C17 by '
-        'C02_wire_plain (under WfMeta of the emitted meta) and C02_wire_compressed (for any lossless Codec), '
+        'C02_wire_plain (under WfMeta of the emitted meta) and C02_wire_compressed (for any lossless Codec, '
+        'under hcmp: the range lists are fixed points of the compaction the proxy applies to the decoded blob since '
+        '/repo 23e5d8f — what the broker serves by SlotInv), '
         'Installed from an accepted set_meta by C02_install',
         'active redirection off: the hop bounds are MOVED replies seen by the client',
         'slot under migration: source proxy != destination proxy (not implied by PartitionView; with both tasks on one '
